@@ -15,7 +15,7 @@ per segment before any top-k selection happens:
   the tree, `ScoreExpr`, `ScoreNode`, `QueryMatcher`) for term / query_string / bool /
   dis_max / function_score / script_score / rank_feature / match_all;
 * `api/reader.rs`: `expand_term_groups` (qualified terms, exact expansion only),
-  `term_weights` (weights summed per term key), `QueryEvaluator::matches_node`,
+  `term_weights` (weights summed per (term key, leaf)), `QueryEvaluator::matches_node`,
   `evaluate_compiled_score`, `has_custom_scoring`, `query/score_functions.rs`
   (`weight`, `field_value_factor`), `query/script.rs CompiledScript::evaluate` (RPN).
 
@@ -348,11 +348,14 @@ def Group.qterms (g : Group) : List QTerm :=
 
 def qualified (p : Plan) : List QTerm := p.groups.flatMap Group.qterms
 
-/-- `term_weights`: one entry per term key, weights summed, leaf of the first occurrence -/
+/-- `term_weights` (since /repo commit 458e503): one entry per **(term key, leaf)** — the same
+term scored by two clauses yields two scored terms, one per leaf; weights of qualified terms
+with the same key *and* leaf are summed -/
 def addWeight (t : QTerm) : List QTerm → List QTerm
   | [] => [t]
   | u :: us =>
-    if u.field == t.field && u.term == t.term then { u with weight := u.weight + t.weight } :: us
+    if u.field == t.field && u.term == t.term && u.leaf == t.leaf then
+      { u with weight := u.weight + t.weight } :: us
     else u :: addWeight t us
 
 def mergeWeights (ts : List QTerm) : List QTerm := ts.foldl (fun acc t => addWeight t acc) []
@@ -418,14 +421,26 @@ end
 
 A column is a plain column (`Vec<Option<T>>`) until some document of the segment sets a list
 (`FastFieldsWriter::set`: `values.len() != 1`), then it is a list column (`offsets` + flat
-`values`).  The single-value accessors return `values.get(start)` on list columns **without
-testing `start < end`**: a document without a value reads the first value of the next document
-that has one.  `colSpec` is what the statement says (first value of the document itself). -/
+`values`).  On list columns the single-value accessors read `values[start]` of the document's
+range **when the range is non-empty** (`Some((start, end)) if start < end`, repaired by /repo
+commit 96697a7).  `colReadLegacy` is the read before the repair, which did not test
+`start < end`: a document without a value got the first value of the next document that has one.
+`colSpec` is what the statement says (first value of the document itself). -/
 
 def isListCol {α : Type} (col : List (List α)) : Bool := col.any fun v => decide (v.length ≥ 2)
 
 /-- the code's single-value read of document `doc` in a column given as per-document value lists -/
 def colRead {α : Type} (col : List (List α)) (doc : Nat) : Option α :=
+  if isListCol col then
+    (match col[doc]? with
+     | some vs => if vs.isEmpty then none else (col.drop doc).flatten.head?
+     | none => none)
+  else match col[doc]? with
+    | some v => v.head?
+    | none => none
+
+/-- the read before commit 96697a7 (kept as documentation of the repaired defect) -/
+def colReadLegacy {α : Type} (col : List (List α)) (doc : Nat) : Option α :=
   if isListCol col then (col.drop doc).flatten.head?
   else match col[doc]? with
     | some v => v.head?
